@@ -41,8 +41,22 @@ def bundled_edf(max_size=9000):
     return [f for f in fs if 0 < os.path.getsize(f) <= max_size]
 
 
+EXT_CYCLE = [".edf", ".edf", ".edif", ".EDF", ".edf", ".Edif", ".edn"]
+_ext_turn = [0]
+
+
 def roundtrip(n, d, tag):
-    f = os.path.join(d, tag + ".edf")
+    # every accepted spelling of the extension names the same format, for the writer and for the reader
+    _ext_turn[0] += 1
+    ext = EXT_CYCLE[_ext_turn[0] % len(EXT_CYCLE)]
+    if ext == ".edn":
+        ext = ".edf"        # (.edn is a reader-only spelling: written as .edf, renamed below)
+        f = os.path.join(d, tag + ext)
+        sdn.compose(n, f)
+        g = os.path.join(d, tag + ".edn")
+        os.replace(f, g)
+        return g, sdn.parse(g)
+    f = os.path.join(d, tag + ext)
     sdn.compose(n, f)
     return f, sdn.parse(f)
 
